@@ -282,6 +282,11 @@ type hist struct {
 	stop bool
 	tlen int
 	muts int
+	grew int // table growths seen by the light steps of a size-class history
+	// lookupCap > 0 (size-class histories): a full observation looks up at most about this many
+	// of the stored keys (every stride-th, rotating phase) instead of all of them
+	lookupCap int
+	tlenSC    int
 
 	curOp     lmap.Op // the call in progress (read by the main goroutine if the history never returns)
 	curMethod string
@@ -393,7 +398,14 @@ func (h *hist) observe(full bool) {
 			list = append(list, one{op: lmap.Op{Name: "GetKeySet"}})
 		}
 		// every stored key must be found again by the public lookups
-		for _, e := range h.m.Ents {
+		stride := 1
+		if h.lookupCap > 0 && len(h.m.Ents) > h.lookupCap {
+			stride = len(h.m.Ents)/h.lookupCap + 1
+		}
+		for i, e := range h.m.Ents {
+			if stride > 1 && i%stride != len(h.log)%stride {
+				continue
+			}
 			list = append(list, one{op: lmap.Op{Name: "ContainsKey", K: e.K}})
 			if h.t.Supports("Get") {
 				list = append(list, one{op: lmap.Op{Name: "Get", K: e.K}})
@@ -864,6 +876,12 @@ func main() {
 		t := t
 		c.Cases("hist-"+t.Name, per, func(i int, r *vlib.Rand) { runHistory(c, t, i, r, dead) })
 	}
+	// whole-structure operations at every table-size class (sizeclass.go)
+	perSC := c.N(48, 480)
+	for _, t := range lmap.Types {
+		t := t
+		c.Cases("sizeclass-"+t.Name, perSC, func(i int, r *vlib.Rand) { runSizeClass(c, t, i, r, dead) })
+	}
 	var dl []string
 	for k := range dead {
 		dl = append(dl, k)
@@ -893,6 +911,7 @@ func main() {
 		}
 	}
 	c.Floor("updates_of_existing_key_when_full", exp/20, c.Counter("updates_of_existing_key_when_full"))
+	scFloors(c, perSC, dead)
 	c.Finish()
 	fmt.Println("done")
 }
